@@ -136,6 +136,7 @@ struct MetaEngine : Engine {
 		unsigned term = model.size() ? (unsigned)w.below(4) : 0;
 		if (model.size() == 0) {
 			body = w.chance(1, 2) ? "Just a paragraph" + eol + eol + "second" + eol : "# Heading" + eol + eol + "text" + eol;
+			if (w.chance(1, 6)) body = w.chance(1, 2) ? std::string() : std::string("one line, no newline");      // the empty document and the shortest ones
 			tail = body; block.clear();
 		} else if (term <= 1) {
 			// "x all bodies": what follows the blank line is never metadata, whatever it looks like
